@@ -19,7 +19,7 @@ import (
 func TestCheck(t *testing.T) {
 	r := ev.Start("C18")
 	defer r.Finish()
-	r.SetRule("stepped: case i = scripted fragment (i mod 15: I/O across CLOSE, downgrade vs. lock clone, re-registration, expiry with locks, unlinked open file, FREE_STATEID/RELEASE_LOCKOWNER with locks held, I/O across re-registration+expiry, I/O across downgrade, unconfirmed open-owner, both minor versions on one file, hostile state IDs, none, CLAIM_PREVIOUS x delegate type x owner-has-file-open x share access, one lock-owner through two open-owners of one file, OPEN parked inside the directory) for a client of minor version (i div 15) mod 2, surrounded by 15-80 PRNG-chosen steps of 2-3 clients, ended by orderly close or not, then expiry of every lease; stress: 3-7 concurrent clients each with a racing I/O worker. A case is non-trivial if it hit at least one named situation other than a refused hostile state ID; distinct = distinct sequences of (operation, variant, status).")
+	r.SetRule("stepped: case i = scripted fragment (i mod 16: I/O across CLOSE, downgrade vs. lock clone, re-registration, expiry with locks, unlinked open file, FREE_STATEID/RELEASE_LOCKOWNER with locks held, I/O across re-registration+expiry, I/O across downgrade, unconfirmed open-owner, both minor versions on one file, hostile state IDs, none, CLAIM_PREVIOUS x delegate type x owner-has-file-open x share access, one lock-owner through two open-owners of one file, OPEN parked inside the directory, request held in flight while the clock passes the lease without other traffic) for a client of minor version (i div 16) mod 2, surrounded by 15-80 PRNG-chosen steps of 2-3 clients, ended by orderly close or not, then expiry of every lease; stress: 3-7 concurrent clients each with a racing I/O worker. A case is non-trivial if it hit at least one named situation other than a refused hostile state ID; distinct = distinct sequences of (operation, variant, status).")
 	r.Assume("the fake directory and its instrumented regular files stand in for the virtual file system; opens and closes are counted where the NFS programs call VirtualOpenChild/VirtualOpenSelf/VirtualClose")
 	r.Assume("state table counts are read through the verif-tagged hook verif_state.go under the programs' own locks, at quiescent points only")
 	r.Assume("time only moves in explicit jumps of lease+2s on the virtual clock; a client counts as expired if it neither renewed in the middle of a jump nor had a request in flight that holds its record")
@@ -28,27 +28,47 @@ func TestCheck(t *testing.T) {
 	r.Assume("universal quantifiers are sampled: verdict covers the executed histories only")
 
 	for name, min := range map[string]int{
-		"io-in-flight-across-close":                         5,
-		"downgrade-to-read-while-lock-owner-cloned-write":   5,
-		"reregistration-with-opens":                         5,
-		"lease-expiry-with-locks-held":                      5,
-		"unlinked-open-putfh":                               5,
-		"free-stateid-with-locks-held":                      3,
-		"release-lockowner-with-locks-held":                 3,
-		"reregistration-delayed-by-io-in-flight":            3,
-		"io-in-flight-across-lease-expiry":                  3,
-		"io-in-flight-across-downgrade":                     3,
-		"unconfirmed-open-owner-reinitialized":              3,
-		"unused-open-owner-expired":                         3,
-		"file-open-through-both-minor-versions":             3,
-		"hostile-state-id":                                  50,
-		"final-all-leases-expired":                          20,
-		"final-everything-closed-by-clients":                5,
-		"stress-round-completed":                            3,
-		"lock-owner-locks-one-file-through-two-open-owners": 10,
-		"reclaim-with-delegation-refused-while-open":        10,
-		"reclaim-with-delegation-refused-while-not-open":    10,
-		"reclaim-refused-after-leaf-was-opened":             10,
+		"io-in-flight-across-close":                                               5,
+		"downgrade-to-read-while-lock-owner-cloned-write":                         5,
+		"reregistration-with-opens":                                               5,
+		"lease-expiry-with-locks-held":                                            5,
+		"unlinked-open-putfh":                                                     5,
+		"free-stateid-with-locks-held":                                            3,
+		"release-lockowner-with-locks-held":                                       3,
+		"reregistration-delayed-by-io-in-flight":                                  3,
+		"io-in-flight-across-lease-expiry":                                        3,
+		"io-in-flight-across-downgrade":                                           3,
+		"unconfirmed-open-owner-reinitialized":                                    3,
+		"unused-open-owner-expired":                                               3,
+		"file-open-through-both-minor-versions":                                   3,
+		"hostile-state-id":                                                        50,
+		"final-all-leases-expired":                                                20,
+		"final-everything-closed-by-clients":                                      5,
+		"stress-round-completed":                                                  3,
+		"lock-owner-locks-one-file-through-two-open-owners":                       10,
+		"reclaim-with-delegation-refused-while-open":                              10,
+		"reclaim-with-delegation-refused-while-not-open":                          10,
+		"reclaim-refused-after-leaf-was-opened":                                   10,
+		"lock-with-new-lock-owner-flag-for-owner-that-has-lock-state-on-the-open": 20,
+		"lockt": 20,
+		"request-queued-behind-open-owner-transaction":         5,
+		"open-parked-in-flight":                                10,
+		"open-in-flight-across-reregistration":                 3,
+		"open-in-flight-across-lease-expiry":                   3,
+		"current-state-id-used-after-open":                     30,
+		"current-state-id-used-after-lock":                     20,
+		"session-framing-variant":                              50,
+		"session-destroyed-from-inside-a-sequence":             5,
+		"destroy-clientid-from-inside-a-sequence":              5,
+		"create-session-from-inside-a-sequence":                5,
+		"setattr-fails-after-state-id-was-accepted":            30,
+		"stale-clientid-refused":                               3,
+		"reclaim-open-fails-inside-leaf":                       5,
+		"open-confirm-refused-for-unconfirmed-open-owner":      3,
+		"hostile:special-state-id":                             20,
+		"request-in-flight-longer-than-the-lease":              10,
+		"request-in-flight-for-up-to-the-lease":                10,
+		"client-alive-after-request-held-across-clock-advance": 20,
 	} {
 		if r.ReplayFile() == "" {
 			r.Floor(name, min)
